@@ -223,14 +223,52 @@ def Ctx.opPub (c : Ctx) (a : Actor) (tn : TName) (content : String) (head : List
     | some marked => c.deliverPub t a m marked noEcho
 
 /-! ### {note} (session.go:1238-1305, topic.go:1103-1235) -/
+
+/-- session-level validation of a note (session.go:1252-1290): kinds and sequence numbers -/
+def noteValid (what : String) (seqArg : Int) : Bool :=
+  match what with
+  | "kp" | "kpa" | "kpv" => seqArg = 0
+  | "read" | "recv" => seqArg > 0
+  | _ => false
+
+/-- permission needed to send the note (topic.go:1128-1141) -/
+def notePass (t : Topic) (mode : Mode) (what : String) : Bool :=
+  match what with
+  | "kp" | "kpa" | "kpv" => isWriter mode && !t.readOnly
+  | _ => isReader mode
+
+/-- the marks after a note (topic.go:1143-1174): `none` = stale or repeated, dropped. Returns the new per-user data and the
+`read` / `recv` values to be written to the store (0 = not written). -/
+def noteMarks (pud : PUD) (what : String) (seqArg : Int) : Option (PUD × Int × Int) :=
+  if what = "read" then
+    if seqArg ≤ pud.readId then none
+    else
+      let p := { pud with readId := seqArg }
+      let p := if p.readId > p.recvId then { p with recvId := p.readId } else p
+      some (p, seqArg, 0)
+  else if what = "recv" then
+    if seqArg ≤ pud.recvId then none
+    else
+      let p := { pud with recvId := seqArg }
+      let p := if p.readId > p.recvId then { p with recvId := p.readId } else p
+      some (p, 0, p.recvId)
+  else some (pud, 0, 0)
+
+/-- the store write of a note (topic.go:1176-1201); `false` = the write failed and the note is dropped -/
+def Ctx.noteStore (c : Ctx) (tn : TName) (u : Uid) (read recv : Int) : Ctx × Bool :=
+  if (if read > 0 then read else recv) > 0 then
+    let (c, ok) := c.subsUpdate tn u (fun s =>
+      let s := if recv > 0 then { s with recvId := recv } else s
+      if read > 0 then { s with readId := read } else s)
+    if !ok then (c, false) else
+    let c := if read > 0 then { c with pushes := c.pushes ++ [s!"push what=read topic={tn} seq={read} to=\{{u}} chan=-"] } else c
+    (c, true)
+  else (c, true)
+
 def Ctx.opNote (c : Ctx) (a : Actor) (tn : TName) (what : String) (seqArg : Int) : Ctx :=
   -- session-level validation: silently dropped
   if a.uid = "" then c else
-  let valid := match what with
-    | "kp" | "kpa" | "kpv" => seqArg = 0
-    | "read" | "recv" => seqArg > 0
-    | _ => false
-  if !valid then c else
+  if !noteValid what seqArg then c else
   -- an unattached session may still acknowledge receipt: the hub routes the note to the topic if it is loaded
   if !c.w.attached a.sid tn ∧ what ≠ "recv" then c.emit a.sid (ctrl 409 tn) else
   match c.w.live? tn with
@@ -239,43 +277,14 @@ def Ctx.opNote (c : Ctx) (a : Actor) (tn : TName) (what : String) (seqArg : Int)
     if t.inactive then c else
     if seqArg > t.lastId then c else
     let pud := t.pud a.uid
-    let mode := eff pud
-    let pass := match what with
-      | "kp" | "kpa" | "kpv" => isWriter mode && !t.readOnly
-      | _ => isReader mode
-    if !pass then c else
-    -- marks
-    let r : Option (PUD × Int × Int) :=   -- (pud', read, recv)
-      if what = "read" then
-        if seqArg ≤ pud.readId then none
-        else
-          let p := { pud with readId := seqArg }
-          let p := if p.readId > p.recvId then { p with recvId := p.readId } else p
-          some (p, seqArg, 0)
-      else if what = "recv" then
-        if seqArg ≤ pud.recvId then none
-        else
-          let p := { pud with recvId := seqArg }
-          let p := if p.readId > p.recvId then { p with recvId := p.readId } else p
-          some (p, 0, p.recvId)
-      else some (pud, 0, 0)
-    match r with
+    if !notePass t (eff pud) what then c else
+    match noteMarks pud what seqArg with
     | none => c
     | some (pud', read, recv) =>
-      let seq := if read > 0 then read else recv
-      let res : Ctx × Bool :=
-        if seq > 0 then
-          let (c, ok) := c.subsUpdate tn a.uid (fun s =>
-            let s := if recv > 0 then { s with recvId := recv } else s
-            if read > 0 then { s with readId := read } else s)
-          if !ok then (c, false) else
-          let c := if read > 0 then { c with pushes := c.pushes ++ [s!"push what=read topic={tn} seq={read} to=\{{a.uid}} chan=-"] } else c
-          (c, true)
-        else (c, true)
-      match res with
+      match c.noteStore tn a.uid read recv with
       | (c, false) => c
       | (c, true) =>
-        let t := if seq > 0 then t.setPud a.uid pud' else t
+        let t := if (if read > 0 then read else recv) > 0 then t.setPud a.uid pud' else t
         let c := c.fanoutInfo t a.sid a.uid what s!"info {tn} from={a.uid} what={what} seq={seqArg}"
         c.putLive t
 
